@@ -15,6 +15,7 @@
    arbitrary oracle (it reads site tensors only and refuses bonds across the ends of the chain, both checked by the translator). *)
 From Coq Require Import List ZArith QArith Qabs Bool.
 From Yv Require Import Gen.StepGen Tdvp.StepLaws Sweep.Sweep Gen.SweepGen Sweep.SweepBase Sweep.SweepTdvp Sweep.SweepTdvp12 Sweep.SweepTdvp12Pre.
+From Yv Require Base.Deleg Gen.DelegGen.
 Import ListNotations.
 
 Theorem C10_steps t0 t1 dt : (0 < dt)%Q -> (eps < t1 - t0)%Q ->
@@ -67,6 +68,11 @@ Example C10_nonvacuous :
   ok (run_ops false 3 [OHeff1 0; OWrite1 0; OOrth 0 ToLast; OHeff0] (ready_state 3)) = false.
 Proof. split; [exists 4; split; [vm_compute; reflexivity|reflexivity]|]. vm_compute. split; reflexivity. Qed.
 
+(* --- options are handed down under their own names (facts regenerated from the source on every run by tools/translate/tr_deleg.py): tdvp_ and its sweeps pass normalize / subtract_E / precompute / opts_* on to every local update under their own names (dt is the sub-step: allowed, see StepGen) --- *)
+Theorem C10_options_forwarded :
+  Deleg.deleg_ok Deleg.pre_tdvp DelegGen.delegations DelegGen.allowed = true /\ Nat.ltb 0 (Deleg.n_facts Deleg.pre_tdvp DelegGen.delegations) = true.
+Proof. split; vm_compute; reflexivity. Qed.
+
 Print Assumptions C10_steps.
 Print Assumptions C10_step_length.
 Print Assumptions C10_snapshot_reached.
@@ -82,3 +88,4 @@ Print Assumptions C10_sweep_12site.
 Print Assumptions C10_sweep_12site_precompute.
 Print Assumptions C10_sweep_12site_is_its_operations.
 Print Assumptions C10_all_reads_fresh.
+Print Assumptions C10_options_forwarded.
